@@ -326,6 +326,15 @@ def gen_scenario(ch, prof):
         j = {'sources': [{'from': wi, 'sub': None} for wi in workers], 'sources_balance': True, 'has_output': False,
              'proc_ns': gen_proc_pattern(ch, prof)}
         add('j', j)
+        if _chance(ch, 1, 2):
+            # the rejoin forwards the stream (and may drop some frames itself) to a final sink
+            j['has_output'] = True
+            j['out'] = [{'name': 'main', 'img': 'pass'}]
+            j['form'] = 'dict'
+            if prof.skip and _chance(ch, 1, 2):
+                mod = ch.rng_int('gen', 2, 4)
+                j['skip'] = [mod, ch.rng_int('gen', 0, mod - 1)]
+            add('k', {'sources': [{'from': 'j', 'sub': None}], 'has_output': False, 'proc_ns': gen_proc_pattern(ch, prof)})
     else:
         raise ValueError(shape)
 
